@@ -460,6 +460,35 @@ def check(model, rep, tier):
               'parameter declarations to the function\'s own (isolated) scope',
               line=h.node.lineno)
 
+  # a statement's scope annotation is written once: a second record under the
+  # same tag on the same node replaces the statement's scope by another one
+  n_rec = 0
+  for mname_, m_ in sorted(cls.methods.items()):
+    groups = {}
+    for c_ in core.walk_no_nested(m_.node):
+      if isinstance(c_, ast.Call) and core.norm(c_.func) == 'self._exit_and_record_scope' \
+          and c_.args:
+        tag_ = c_.args[1] if len(c_.args) > 1 else next(
+            (k.value for k in c_.keywords if k.arg == 'tag'), None)
+        key_ = (core.norm(c_.args[0]), core.norm(tag_) if tag_ is not None
+                else 'anno.Static.SCOPE')
+        groups.setdefault(key_, []).append(c_)
+    for key_, cs_ in groups.items():
+      n_rec += 1
+      if len(cs_) < 2:
+        rep.hold('FINALIZE', '%s:records-once(%s, %s)' % ((m_.site,) + key_))
+        continue
+      g_ = pycfg.CFG(m_.node)
+      w_ = {i: sum(1 for c in pycfg.calls_at(g_, i) if c in cs_) for i in range(len(g_.nodes))}
+      w_ = {i: v for i, v in w_.items() if v}
+      rng_ = g_.count_range(w_, skip_labels=('exc',))
+      rep.check(rng_ is not None and rng_[1] <= 1, 'FINALIZE',
+                '%s:records-once(%s, %s)' % ((m_.site,) + key_),
+                'the scope of a statement is recorded twice under the same tag on '
+                'one path: the second record (another scope) replaces the first',
+                {'records_per_path': rng_}, line=m_.node.lineno,
+                witness='class Point: dims = 2 -- the class statement then reports '
+                'dims as modified instead of Point')
   # ---------------------------------------------------------------- SCOPE-GROWS
   scope_grows(model, rep, 'SCOPE-GROWS')
 
